@@ -47,10 +47,11 @@ func H_Bytes_Equal() {
 	}
 	vx.Note("a", a)
 	vx.Note("b", b)
-	var r1, r2 bool
+	var r1, r2, r3 bool
 	panicked := vx.CatchPanic(func() {
 		r1 = jsonpatch.Equal(a, b)
 		r2 = jsonpatch.Equal(b, a)
+		r3 = jsonpatch.Equal(a, append([]byte(nil), a...))
 	})
 	vx.Assert(!panicked, "C04/equal-any-bytes-no-panic")
 	if panicked {
@@ -59,6 +60,9 @@ func H_Bytes_Equal() {
 		return
 	}
 	va, vb := refValid(a), refValid(b)
+	// a text compared with itself: equal exactly when it is well-formed
+	vx.Assert(r3 == va, "C06/reflexive-iff-wellformed")
+	vx.Assert(va || !r3, "C16/equal-rejects-malformed")
 	if !va || !vb {
 		vx.Assert(!r1 && !r2, "C06/malformed-is-unequal")
 		vx.Assert(!r1 && !r2, "C16/equal-rejects-malformed")
